@@ -32,7 +32,7 @@ def triple_product_coeffs(q):
     th = 2 * np.pi * np.arange(M) / M
     lp = q.abs_G0_over_B0
     k, t = q.curvature, q.torsion
-    D = lambda f: q.d_d_varphi @ f
+    D = lambda f: dvarphi_indep(q, f)
     z = np.zeros(q.nphi)
     # series coefficients in r (index 1, 2) of X, Y, Z as functions of theta; shape (M, nphi)
     def ser(c1, s1, c20, c2c, c2s):
